@@ -8,6 +8,7 @@ import os
 from path import Path
 
 from . import clean_common as cc
+from . import clean_own as co
 from . import common
 from .wfutil import WF
 
@@ -328,15 +329,38 @@ def _wit(res):
             "edits": res["edits"]}
 
 
+def _model_cases(ctx, name, checks, chunk):
+    """Evaluate the model side.  The implementation side and the oracles do not depend on it: when coq/gen is stale
+    or missing because the translator failed closed, the failure to evaluate is reported and the run goes on."""
+    try:
+        return common.run_cases(ctx, name, cc.HEADER, checks, chunk=chunk)
+    except RuntimeError as e:
+        if not ctx.failures:
+            raise
+        ctx.notes.append(f"model side of {name} not evaluated (an obligation is already broken): {str(e)[:200]}")
+        return []
+
+
 def correspondence(ctx):
     rng = ctx.rng
-    # E1a
+    # implementation side of the three families first (they feed the oracle whatever happens to the model side)
     cases = []
 
     async def run_rdf(n):
         for _ in range(n):
             cases.append(await _rdf_case(rng, cc.HashIds()))
     cc.run(run_rdf(ctx.scale(150, 1500)))
+    ctx.rdf_cases = cases
+    cl = []
+
+    async def run_clean(n):
+        for _ in range(n):
+            cl.append(await _clean_case(rng, cc.HashIds()))
+    cc.run(run_clean(ctx.scale(60, 600)))
+    ctx.clean_cases = cl
+    fin = cc.run(_finalize_cases(ctx, ctx.scale(60, 600)))
+    ctx.fin_cases = fin
+    # E1a
     checks = [_rdf_check(c) for c in cases]
     for c in cases:
         ctx.case(("rdf", repr(c["before"]), repr(c["qfiles"]), repr(c["qdirs"])), bool(c["removed"]))
@@ -344,7 +368,7 @@ def correspondence(ctx):
         ctx.count("rdf_kept_queued_files", sum(1 for p in c["qfiles"] if p in c["after"]))
         ctx.count("rdf_kept_dirs", sum(1 for d in c["qdirs"] if d in c["after"]))
     ctx.sample({"E1a": {k: cases[0][k] for k in ("desc", "qdirs", "removed")}})
-    bad = common.run_cases(ctx, "rdf", cc.HEADER, checks, chunk=100)
+    bad = _model_cases(ctx, "rdf", checks, 100)
     ctx.traces_validated += len(checks) - len(bad)
     ctx.count("E1a_cases", len(checks))
     for i in bad[:3]:
@@ -352,14 +376,7 @@ def correspondence(ctx):
         _report(ctx, "correspondence", "E1a:remove_deletable_files", "E1a:remove_deletable_files:model-differs",
                 "real remove_deletable_files and model/Clean.v disagree on the resulting tree or the REMOVE events",
                 {k: c[k] for k in ("desc", "qfiles", "qdirs", "before", "after", "removed")})
-    ctx.rdf_cases = cases
     # E1b
-    cl = []
-
-    async def run_clean(n):
-        for _ in range(n):
-            cl.append(await _clean_case(rng, cc.HashIds()))
-    cc.run(run_clean(ctx.scale(60, 600)))
     checks = [_clean_check(c) for c in cl]
     for c in cl:
         nrem = sum(1 for p in c["before"] if p not in c["after"])
@@ -375,7 +392,7 @@ def correspondence(ctx):
                 if st == 17 and sel and c["args"][2]:
                     ctx.count("clean_edited_OUTDATED_selected_commit_" + ("safe" if c["args"][1] else "unsafe"), 1)
     ctx.sample({"E1b": {"args": cl[0]["args"], "paths": cl[0]["paths"], "crash": cl[0]["crash"], "edits": cl[0]["edits"]}})
-    bad = common.run_cases(ctx, "clean", cc.HEADER, checks, chunk=40)
+    bad = _model_cases(ctx, "clean", checks, 40)
     ctx.traces_validated += len(checks) - len(bad)
     ctx.count("E1b_cases", len(checks))
     for i in bad[:3]:
@@ -383,9 +400,7 @@ def correspondence(ctx):
         _report(ctx, "correspondence", "E1b:clean", "E1b:clean:model-differs",
                 "real clean.clean() and model/Clean.v disagree on the resulting tree or on a raised exception",
                 {k: c[k] for k in ("log", "args", "paths", "before", "after", "crash", "edits")})
-    ctx.clean_cases = cl
     # E1c / E2
-    fin = cc.run(_finalize_cases(ctx, ctx.scale(60, 600)))
     checks = [cc.finalize_check(r) for r in fin]
     for r in fin:
         nrem = sum(1 for p in r["before_fs"] if p not in r["after_fs"])
@@ -396,13 +411,12 @@ def correspondence(ctx):
         ctx.count("finalize_actually_guarded", int(cc.guarded(r)))
     ctx.sample({"E1c": {"guard": fin[0]["guard"], "rc": fin[0]["returncode"], "removed": fin[0]["removed_events"],
                         "edits": fin[0]["edits"]}})
-    bad = common.run_cases(ctx, "fin", cc.HEADER, checks, chunk=30)
+    bad = _model_cases(ctx, "fin", checks, 30)
     ctx.traces_validated += len(checks) - len(bad)
     ctx.count("E1c_cases", len(checks))
     for i in bad[:3]:
         _report(ctx, "correspondence", "E1c:finalize", "E1c:finalize:model-differs",
                 "real Builder.finalize and the model's finalize disagree on tree, REMOVE events or graph", _wit(fin[i]))
-    ctx.fin_cases = fin
 
 
 def oracle(ctx):
@@ -413,6 +427,11 @@ def oracle(ctx):
             return
         seen.add(sig)
         _report(ctx, "oracle", name, sig, detail, witness)
+    # ownership with symbolic links, implementation only (harness/clean_own.py): remove_deletable_files on hand-made
+    # queues, Builder.finalize and clean.clean() on projects grown through the Workflow API, the real serve()
+    co.run_families(ctx, ctx.scale(60, 600), ctx.scale(30, 300), ctx.scale(30, 300), c06=True)
+    if cc.e3_available():
+        co.run_e3_replace(ctx, ctx.scale(12, 52), c06=True)
     for c in getattr(ctx, "rdf_cases", []):
         for sig, detail in _rdf_oracle(c):
             emit("remove_deletable_files", sig, detail, {k: c[k] for k in ("desc", "qfiles", "qdirs", "before", "after")})
@@ -462,7 +481,12 @@ def oracle(ctx):
 
 
 def search(ctx):
-    """An obligation broke and nothing above produced a witness: more finalize and clean cases."""
+    """An obligation broke and nothing above produced a witness: the implementation-only families at ten times the
+    scale (every shape of user replacement, links made by steps, all three cleanup entry points, serve()), then
+    more finalize cases of the Workflow-level generator."""
+    co.run_families(ctx, 600, 300, 300, c06=True, suffix=":search")
+    if cc.e3_available():
+        co.run_e3_replace(ctx, 52, c06=True, suffix=":search")
     seen = set()
     fin = cc.run(_finalize_cases(ctx, 300))
     for r in fin:
